@@ -499,6 +499,15 @@ func amlChildMain() {
 			}
 		}
 	}()
+	ppid := os.Getppid()
+	go func() { // the runner that watches this child is gone (killed check): do not outlive it
+		for {
+			time.Sleep(500 * time.Millisecond)
+			if os.Getppid() != ppid {
+				os.Exit(98)
+			}
+		}
+	}()
 	f, err := os.Open(os.Getenv(amlChildBatch))
 	if err != nil {
 		panic(err)
